@@ -593,7 +593,30 @@ func loopKind(h *ssa.BasicBlock) (string, bool) {
 			}
 		}
 	}
-	// index loop: header has phi i; some block in the loop computes i+1; the exit test compares with len/const
+	// counted loop: header phi i with a constant step of +1/-1 computed inside the loop, and an exit
+	// test that compares i (or the stepped value) with a loop-invariant bound in the matching direction
+	body := map[*ssa.BasicBlock]bool{}
+	for _, p := range h.Preds {
+		if h.Dominates(p) {
+			for b := range loopBody(h, p) {
+				body[b] = true
+			}
+		}
+	}
+	invariant := func(v ssa.Value) bool {
+		switch x := v.(type) {
+		case *ssa.Const, *ssa.Parameter, *ssa.FreeVar, *ssa.Global:
+			return true
+		case *ssa.Call:
+			if bi, ok := x.Call.Value.(*ssa.Builtin); ok && (bi.Name() == "len" || bi.Name() == "cap") {
+				return true
+			}
+			return !body[x.Block()]
+		case ssa.Instruction:
+			return !body[x.Block()]
+		}
+		return false
+	}
 	for _, in := range h.Instrs {
 		phi, ok := in.(*ssa.Phi)
 		if !ok {
@@ -601,12 +624,14 @@ func loopKind(h *ssa.BasicBlock) (string, bool) {
 		}
 		for _, e := range phi.Edges {
 			bo, ok := e.(*ssa.BinOp)
-			if !ok || bo.Op != token.ADD || bo.X != phi {
+			if !ok || (bo.Op != token.ADD && bo.Op != token.SUB) || bo.X != phi {
 				continue
 			}
-			if k, ok := bo.Y.(*ssa.Const); !ok || k.Int64() != 1 {
+			k, ok := bo.Y.(*ssa.Const)
+			if !ok || k.Int64() != 1 {
 				continue
 			}
+			up := bo.Op == token.ADD
 			for _, cand := range []ssa.Value{phi, bo} {
 				refs := cand.Referrers()
 				if refs == nil {
@@ -614,16 +639,50 @@ func loopKind(h *ssa.BasicBlock) (string, bool) {
 				}
 				for _, r := range *refs {
 					cmp, ok := r.(*ssa.BinOp)
-					if !ok || (cmp.Op != token.LSS && cmp.Op != token.LEQ) || cmp.X != cand {
+					if !ok || !body[cmp.Block()] {
 						continue
 					}
-					switch y := cmp.Y.(type) {
-					case *ssa.Const:
-						return "counted loop up to a constant", true
-					case *ssa.Call:
-						if bi, ok := y.Call.Value.(*ssa.Builtin); ok && bi.Name() == "len" {
-							return "index loop over len(...)", true
+					var other ssa.Value
+					op := cmp.Op
+					if cmp.X == cand {
+						other = cmp.Y
+					} else if cmp.Y == cand {
+						other = cmp.X
+						switch op {
+						case token.LSS:
+							op = token.GTR
+						case token.LEQ:
+							op = token.GEQ
+						case token.GTR:
+							op = token.LSS
+						case token.GEQ:
+							op = token.LEQ
 						}
+					} else {
+						continue
+					}
+					if !invariant(other) {
+						continue
+					}
+					// the comparison must control a loop exit
+					controls := false
+					for _, rr := range *cmp.Referrers() {
+						if ifi, ok := rr.(*ssa.If); ok {
+							for _, s := range ifi.Block().Succs {
+								if !body[s] {
+									controls = true
+								}
+							}
+						}
+					}
+					if !controls {
+						continue
+					}
+					if up && (op == token.LSS || op == token.LEQ) {
+						return "counted loop (step +1, upper bound loop-invariant)", true
+					}
+					if !up && (op == token.GTR || op == token.GEQ) {
+						return "counted loop (step -1, lower bound loop-invariant)", true
 					}
 				}
 			}
